@@ -1,4 +1,4 @@
-PROP = {"engines": [("list", "faults", 2500), ("slist", "faults", 2000), ("array", "faults", 3000), ("deque", "faults", 3000), ("pqueue", "faults", 1200), ("hashtable", "faults", 2500), ("tst", "faults", 1200),
+PROP = {"engines": [("list", "faults", 2500), ("slist", "faults", 2000), ("array", "faults", 3000), ("sized", "faults", 1500), ("deque", "faults", 3000), ("pqueue", "faults", 1200), ("hashtable", "faults", 2500), ("tst", "faults", 1200),
                     ("treetable", "faults", 1200), ("rbuf", "faults", 300), ("dpool", "faults", 300)],
         "level_text": "Coq theorems per engine, for every fault plan (universally quantified list of grant/refuse answers): an operation that reports the allocation error returns the "
                       "identical model state with the same live blocks and the invariant intact; constructors and derived builders return no object and an unchanged ledger. "
